@@ -18,7 +18,14 @@
 (* comparison `array == literal`, which is a runtime error for `==`.  Three *)
 (* readings are admitted: "lenient" (simply no match), "short" (error,     *)
 (* positions of an array pattern compared left to right, stopping at the   *)
-(* first mismatch or error), "eager" (error if any position errs).         *)
+(* first mismatch or error), "decided" (positions in any order: a position *)
+(* that does not match decides the pattern - no match - whatever the other *)
+(* positions hold; error only if no position mismatches and one errs).     *)
+(* NOT admitted: an error raised by a position of an array pattern that    *)
+(* comes after a position that has already failed ("matches ... position   *)
+(* by position": once a position fails the pattern is a non-match, the     *)
+(* rest decides nothing; a matcher that goes on comparing aborts a match   *)
+(* whose later case matches).  Law PositionLaw of MC_Match states it.      *)
 (*                                                                          *)
 (* Named deviation match-array-alt-stops (F16): a failing ARRAY pattern    *)
 (* ends its case instead of moving on to the next alternative.             *)
@@ -30,7 +37,7 @@ PLitOf(v)          == [t |-> "lit", v |-> v,     name |-> "",   items |-> <<>>]
 PIdOf(name, nolit) == [t |-> "id",  v |-> nolit, name |-> name, items |-> <<>>]
 PArrOf(ps, nolit)  == [t |-> "arr", v |-> nolit, name |-> "",   items |-> ps]
 
-Readings == {"lenient", "short", "eager"}
+Readings == {"lenient", "short", "decided"}
 
 Yes(b) == [m |-> "yes", b |-> b]     \* b: bindings, a sequence of <<name, value>>
 No     == [m |-> "no",  b |-> <<>>]
@@ -51,6 +58,9 @@ MatchPat(v, p, rd) ==
         bad == {i \in 1..n : rs[i].m # "yes"}
     IN IF bad = {} THEN Yes(FlattenSeq([i \in 1..n |-> rs[i].b]))
        ELSE IF rd = "short" THEN [m |-> rs[SetMin(bad)].m, b |-> <<>>]
+       ELSE IF rd = "decided" THEN (IF \E i \in bad : rs[i].m = "no" THEN No ELSE Err)
+       \* ("eager", not admitted, kept for the laws that tell it from the admitted ones:
+       \*  every position is compared, an error anywhere is an error)
        ELSE IF \E i \in bad : rs[i].m = "err" THEN Err ELSE No
 
 \* the alternatives of one case, in order.  Result: [m, b, alt] (alt = index of
